@@ -442,11 +442,18 @@ def c19_shift(sc, base, seed):
     dt = int(sc["model"].get("dt", 1))
     steps = k
     k = k * dt                      # a delay of `steps` steps is `steps * dt` temporal units (rows of the records)
+    half = random.Random(seed + 97).random() < 0.25
+    if half:
+        # occurrences given as half-integers (2.5: the event is picked up at the first step at or after it), delayed by whole steps
+        sc = copy.deepcopy(sc)
+        for e in sc["events"]:
+            e["occ"] = e["occ"] + 0.5 if e["occ"] + 0.5 + e["dur"] <= sc["T"] else e["occ"]
+        base = run_records(sc)
     tw = copy.deepcopy(sc)
     tw["T"] = sc["T"] + k
     for e in tw["events"]:
         e["occ"] += k
-    if rng.random() < 0.4:
+    if rng.random() < 0.4 and not half:
         # the delay applied to Event objects already built, through the public `occurrence` setter
         try:
             evs = [scen.build_event(e) for e in sc["events"]]
@@ -470,7 +477,7 @@ def c19_shift(sc, base, seed):
         out.append(viol("C19", 0, f"shift by {k}: crashed flag differs", a=base["crashed"], b=b["crashed"]))
         return out
     q = 10.0 ** -(int(np.log10(sc["model"]["monetary_factor"])) + 1)
-    out += cmp_records("C19", base, b, f"all events delayed by {steps} steps ({k} temporal units)", rtol=1e-9, atol_scale=1e-9,
+    out += cmp_records("C19", base, b, f"all events{' (half-integer occurrences)' if half else ''} delayed by {steps} steps ({k} temporal units)", rtol=1e-9, atol_scale=1e-9,
                        rows_a=slice(0, n), rows_b=slice(k, k + n))
     # and the first k rows of the delayed run are the equilibrium
     return out
